@@ -144,36 +144,60 @@ example : parse asciiCls (Info.default false false 2024 2000) {} [] .absent ⟨2
   Fields a rendering does not name come from the default (C15), so `expect` says exactly which fields are read
   from the text; with the oracle's midnight default this is `trunc`. -/
 
-/-! #### what the zone conclusion `offDescr tznames off` of every offset theorem says — and what it does NOT say
+/-! #### what the zone conclusion `offDescr tznames off` of every offset theorem says
 
   `offDescr` is `.naive` (nothing rendered), `.fixed none n` (`tzoffset(None, n)`, a non-zero offset `n` seconds), and for
-  a ZERO offset (`Z`, ` UTC`, `+00`, `+0000`, `+00:00`, `-00:00`): `tz.UTC` **unless** `"UTC" ∈ time.tzname`, in which
-  case it is `.localZone "UTC"` — `tz.tzlocal()`.  `.localZone` is a bare descriptor: it carries NO offset.  So when
-  the process zone is CALLED `UTC`, the theorems prove only "the result is in the process zone", NOT "aware with the
-  rendered offset (zero)".  A POSIX TZ string may call any zone `UTC` (`TZ=UTC+3`: `time.tzname = ('UTC','UTC')`,
-  offset −03:00), and then the implementation really returns −03:00 for `…Z` / `…+00:00` / `… UTC`: known finding
-  `D-C02-local-zone-named-utc` (a defect of /repo; witness in known_findings.d/C02.json and in the manifest).
-  `offDescr_carries_offset` is the clause that IS proved: the zone is `tz.UTC` / the fixed offset rendered whenever
-  the offset is non-zero or no process zone name is `UTC`; `offDescr_local_iff` says the `.localZone` row is exactly
-  the excluded class. -/
+  a ZERO offset (`Z`, ` UTC`, `+00`, `+0000`, `+00:00`, `-00:00`): `tz.UTC`, or — when `"UTC" ∈ time.tzname` — the
+  process-zone row `.localZone "UTC" (some 0)`, which `localFinal` resolves with what `tzlocal()` reports for the wall time:
+  `tzlocal()` when that zone IS at offset zero there, `tz.UTC` otherwise (a POSIX TZ string may call any zone `UTC`:
+  `TZ=UTC+3`).  Since the repair of D-C02-local-zone-named-utc (= D-C15-local-zone-named-utc) the result is therefore
+  at the rendered offset in EVERY case: `offDescr_carries_offset`, with no proviso about `time.tzname`. -/
 
-/-- the proved part of "aware with the rendered offset": a non-zero offset gives `tzoffset(None, n)`; a zero offset
-    gives `tz.UTC` **provided no process zone name is `UTC`** -/
+/-- the UTC offset (seconds) of a result's zone at its wall time; for the process-zone row: after `localFinal`, for ANY names
+    `n0 n1` and offsets `o0 o1` that `tzlocal()` may report at fold 0 / fold 1 -/
+def descrOffset (info : Info) (n0 n1 : Option Token) (o0 o1 : Int) : TzDescr → Option Int
+  | .utc => some 0
+  | .fixed _ n => some n
+  | .localZone name off => some ((localFinal info n0 n1 o0 o1 name off).offset o0 o1)
+  | _ => none
+
+/-- **aware with the rendered offset**: a non-zero offset gives `tzoffset(None, n)`; a zero offset gives a zone that is at
+    offset zero — `tz.UTC`, or the process zone when it is called `UTC` AND is at offset zero for that wall time —
+    whatever `time.tzname` is and whatever `tzlocal()` reports (no hypothesis on `tznames`, `n0 n1 o0 o1`, `info`) -/
 theorem offDescr_carries_offset (tznames : List Token) (off : Off) (n : Int) (hn : off.seconds = some n)
-    (h : n = 0 → tznames.contains ['U', 'T', 'C'] = false) :
-    offDescr tznames off = if n = 0 then .utc else .fixed none n := by
+    (info : Info) (n0 n1 : Option Token) (o0 o1 : Int) :
+    descrOffset info n0 n1 o0 o1 (offDescr tznames off) = some n := by
   unfold offDescr utcOrLocal
   rw [hn]
   by_cases h0 : n = 0
-  · have hc := h h0
-    simp only [List.contains_eq_mem, decide_eq_false_iff_not] at hc
-    simp [h0, hc]
-  · simp [h0]
+  · subst h0
+    by_cases hc : ['U', 'T', 'C'] ∈ tznames
+    · simp only [List.contains_eq_mem, hc, decide_true, if_true, descrOffset]
+      congr 1
+      unfold localFinal
+      simp only [true_and]
+      generalize assignFold n0 n1 (some ['U', 'T', 'C']) = f
+      by_cases hc' : (if f = 1 then n1 else n0) ≠ some ['U', 'T', 'C'] ∧ info.UTCZONE.contains ['U', 'T', 'C'] = true
+      · rw [if_pos hc']; rfl
+      · rw [if_neg hc']
+        by_cases h : (if f = 1 then o1 else o0) ≠ 0
+        · rw [if_pos h]; rfl
+        · rw [if_neg h]; simp only [LocalFinal.offset]; exact Decidable.of_not_not h
+    · simp [hc, descrOffset]
+  · simp [h0, descrOffset]
 
-/-- the `.localZone` row (no offset information) is exactly: zero offset rendered ∧ the process zone is called `UTC` -/
-theorem offDescr_local_iff (tznames : List Token) (off : Off) (name : Token) :
-    offDescr tznames off = .localZone name ↔
-      off.seconds = some 0 ∧ tznames.contains ['U', 'T', 'C'] = true ∧ name = ['U', 'T', 'C'] := by
+/-- … and which object it is: `tz.UTC` unless the process zone is called `UTC`; then `tzlocal()` exactly when it is at
+    offset zero at the wall time (at the fold `_assign_tzname` picks) and still calls itself `UTC` there, else `tz.UTC` -/
+theorem offDescr_zero_object (tznames : List Token) (off : Off) (hn : off.seconds = some 0) :
+    offDescr tznames off = .utc ∨ offDescr tznames off = .localZone ['U', 'T', 'C'] (some 0) := by
+  unfold offDescr utcOrLocal
+  rw [hn]
+  by_cases hc : ['U', 'T', 'C'] ∈ tznames <;> simp [hc]
+
+/-- the process-zone row is exactly: zero offset rendered ∧ the process zone is called `UTC` (and it carries offset `some 0`) -/
+theorem offDescr_local_iff (tznames : List Token) (off : Off) (name : Token) (o : Option Int) :
+    offDescr tznames off = .localZone name o ↔
+      off.seconds = some 0 ∧ tznames.contains ['U', 'T', 'C'] = true ∧ name = ['U', 'T', 'C'] ∧ o = some 0 := by
   unfold offDescr utcOrLocal
   cases hs : off.seconds with
   | none => simp
@@ -184,11 +208,16 @@ theorem offDescr_local_iff (tznames : List Token) (off : Off) (name : Token) :
       · simp [h0, hc]
     · simp [h0]
 
+/-- a zone merely CALLED `UTC` (three hours west: `TZ=UTC+3`) and one that is UTC: the first gives `tz.UTC`, the second `tzlocal()` -/
+example : localFinal (Info.default false false 2024 2000) (some "UTC".toList) (some "UTC".toList) (-10800) (-10800) "UTC".toList (some 0) = .utc
+    ∧ localFinal (Info.default false false 2024 2000) (some "UTC".toList) (some "UTC".toList) 0 0 "UTC".toList (some 0) = .localFold 0 := by
+  decide
+
 /-- **families 1 and 2**: `YYYY-MM-DD[T| ]HH:MM[:SS[(.|,)f{1..6}]]` followed by nothing, `Z`, ` Z`, ` UTC`, `±HH`,
     `±HHMM`, `±HH:MM` (optionally after a space), offsets −23:59..+23:59: that datetime, cut to the digits shown,
     naive / the fixed offset / for a zero offset `tz.UTC` — or, when the process zone is itself called `UTC`, the
-    process zone `tzlocal()`, whose offset is whatever that zone's is (NOT necessarily zero: D-C02-local-zone-named-utc;
-    see `offDescr_carries_offset` for the clause that is proved). -/
+    process-zone row carrying offset zero (`tzlocal()` if that zone is at offset zero there, else `tz.UTC`): always a zone at
+    the rendered offset (`offDescr_carries_offset`). -/
 theorem parse_render_iso_offsets (cls : Char → CClass) [AsciiOK cls] (yf : Bool) (year century : Int) (o : Opts)
     (tznames : List Token) (tzi : TzInfos) (ho : PlainOpts o tzi) (dflt : DT) (hdv : dflt.Valid) (t : DT) (ht : t.Valid)
     (sep : Char) (hsep : sep = 'T' ∨ sep = ' ') (f : TimeFmt) (hf : timeFmtDom f) (off : Off) (hoff : off.Dom) :
@@ -309,10 +338,10 @@ example : parse asciiCls (Info.default false false 2024 2000) {} [] .absent ⟨2
 example : parse asciiCls (Info.default false false 2024 2000) {} [] .absent ⟨2001, 1, 1, 0, 0, 0, 0⟩
     "Wed May 28 23:52:59 0031".toList = .ok ⟨⟨2031, 5, 28, 23, 52, 59, 0⟩, .naive, none⟩ := by decide +kernel
 
-/-- D-C02-local-zone-named-utc, shown by the model: with `time.tzname = ("UTC", "UTC")` (e.g. `TZ=UTC+3`) a rendered `+00:00`
-    comes back in the PROCESS zone (`.localZone`), not as `tz.UTC` — and that zone is 3 hours away from UTC -/
+/-- D-C02-local-zone-named-utc (repaired): with `time.tzname = ("UTC", "UTC")` (e.g. `TZ=UTC+3`) a rendered `+00:00` reaches the
+    process-zone row WITH its offset, and `localFinal` returns `tz.UTC` because that zone is 3 hours away from UTC -/
 example : parse asciiCls (Info.default false false 2024 2000) {} ["UTC".toList, "UTC".toList] .absent ⟨2001, 1, 1, 0, 0, 0, 0⟩
-    "2003-09-25T10:49:41+00:00".toList = .ok ⟨⟨2003, 9, 25, 10, 49, 41, 0⟩, .localZone "UTC".toList, none⟩ := by decide +kernel
+    "2003-09-25T10:49:41+00:00".toList = .ok ⟨⟨2003, 9, 25, 10, 49, 41, 0⟩, .localZone "UTC".toList (some 0), none⟩ := by decide +kernel
 
 -- BEGIN GENERATED INDEX (tools_local/gen_templates.py)
 /-- the theorem a template id stands for (`False` for an id without one) -/
